@@ -76,6 +76,7 @@ pub fn run(ctx: &Ctx, rep: &mut Report) {
             crate::legacy::run(rep, "C12");
         }
         let mut u = U::with_ledger(1000 + rng.below(1000) as u32, 1_000_000);
+        u.blanket_ok = true;
         // cast: 0..4 plain accounts, 5 = initial owner, 6 = designated minter, 7.. later owners
         let mut cast: Vec<Address> = (0..7).map(|_| u.principal()).collect();
         let twins: Vec<Address> = (0..5).map(|k| twin_of(&u.env, &cast[k])).collect();
